@@ -380,8 +380,37 @@ def forward(ctx):
             key='forward-mk', msg='build_component does not call mk_component(mm, c_c, derived_attributes)')
     r.check(pm.contains("_C = mm.select_any('C_C', where(Name=name))", bc), 'the component is selected by its name', bc,
             construct=OOA + ':ModelLoader.build_component', key='select', msg='build_component does not select the C_C by Name=name')
-    ok = any(isinstance(n, ast.If) and src(n.test) == 'name' and any(isinstance(x, ast.Raise) for x in n.body) for n in ast.walk(bc))
-    r.check(ok, 'an unknown component name is rejected', bc, construct=OOA + ':ModelLoader.build_component', key='unknown-name',
+    # abstract execution: (component found?, name given?) -> outcome
+    from .. import absint
+    import itertools as _it2
+
+    def sel(e, s, tr):
+        s.setdefault('env', {})[e['_C'].id] = 'c_c'
+        return True
+
+    def truthy(e, s, tr):
+        x = e['_X']
+        if isinstance(x, ast.Name) and s.get('env', {}).get(x.id) == 'c_c':
+            return s['found']
+        if isinstance(x, ast.Name) and x.id == 'name':
+            return s['named']
+        return None
+    bi = absint.Interp(bc, [('name is None', lambda e, s, tr: not s['named']), ('name is not None', lambda e, s, tr: s['named']),
+                            ('_X is None', lambda e, s, tr: (None if truthy(e, s, tr) is None else not truthy(e, s, tr))),
+                            ('_X is not None', lambda e, s, tr: truthy(e, s, tr)), ('_X', truthy)],
+                       [("_C = mm.select_any('C_C', where(Name=name))", sel), ('mm = self.build_metamodel()', lambda e, s, tr: True)])
+    bi.pure_calls = {'mk_component'}
+    ok = True
+    for found, named in _it2.product([True, False], repeat=2):
+        if found and not named:
+            continue        # a component selected by Name=None does not exist
+        out, tr = bi.run({'found': found, 'named': named})
+        if named and not found:
+            ok = ok and out.kind == 'raise'
+        else:
+            ok = ok and out.kind == 'return' and out.value is not None and pm.match('mk_component(mm, _C, derived_attributes)', out.value) is not None
+    r.check(ok, 'an unknown component name is rejected; otherwise the selected component (or the whole model) is built', bc,
+            construct=OOA + ':ModelLoader.build_component', key='unknown-name',
             msg='build_component does not raise for a name that matches no component')
     mc = repo.func(OOA + ':mk_component')
     r.check(pm.contains('mk_class(target, o_obj, derived_attributes)', mc), 'mk_component forwards derived_attributes to mk_class', mc,
